@@ -216,6 +216,12 @@ func BaseObject(v ssa.Value) (ssa.Value, string) {
 	path := ""
 	if b, ok := v.(*Bound); ok {
 		root, p := BaseObject(b.V)
+		if al, isA := root.(*ssa.Alloc); isA {
+			// a by-value struct parameter spilled to a local cell
+			if sv, ok := singleStore(al).(*ssa.Parameter); ok {
+				root = sv
+			}
+		}
 		if prm, isP := root.(*ssa.Parameter); isP {
 			if a, ok := b.Bind[prm]; ok {
 				r2, p2 := BaseObject(a)
